@@ -484,6 +484,37 @@ func (c *FCtx) protoExit(e *Env, st *State, tag string, pos token.Pos) {
 	}
 }
 
+// protoUnwind: the callee may leave by a panic that is recovered further up (Effects.Unwinds). The deferred calls
+// registered so far are what runs on that way out: after them every lock this function touched must be as at entry.
+func (c *FCtx) protoUnwind(e *Env, st *State, call *ast.CallExpr, cl callee) {
+	if len(c.locksTouched) == 0 {
+		return
+	}
+	u := st.clone()
+	for f := len(u.defers) - 1; f >= 0; f-- {
+		frame := u.defers[f]
+		u.defers[f] = nil
+		for i := len(frame) - 1; i >= 0; i-- {
+			frame[i].run(u)
+		}
+	}
+	if u.dead {
+		return
+	}
+	ord := "call#?"
+	if cl.fn != nil {
+		ord = c.callOrdinal(call, cl)
+	}
+	for key, name := range c.locksTouched {
+		if c.transferred(key) {
+			continue
+		}
+		a := c.heapGet(u, key, SArr(SInt, SInt))
+		b := c.heapGet(c.entry, key, SArr(SInt, SInt))
+		c.oblige(u, "balanced", fmt.Sprintf("balanced-on-unwind(%s)#%s", name, ord), call.Pos(), c.sameOnOld(a, b), "lock given back by the deferred calls when the callee leaves by a recovered panic")
+	}
+}
+
 // touchLock havocs the counter named by "held(x.l)" in st.
 func (c *FCtx) touchLock(se *SpecEnv, item string, st *State) {
 	ex, err := parseSpec(item)
